@@ -4,6 +4,7 @@ package classifier
 
 import (
 	"fmt"
+	"sort"
 	"strconv"
 	"strings"
 
@@ -61,6 +62,13 @@ func c01Embedded(c *vrep.Ctx) {
 		cl.Normalize([]byte(sb.String()))
 		c.Bound("history", "Normalize calls before the first Match")
 	}
+	queriesFirst := c.Param("history", "") == "queries"
+	if queriesFirst {
+		// the classifier answers other queries about the SAME document first: the document without
+		// its most frequent words, its first third, every second word, its distinct words once each
+		cl = vEmbedded(t)
+		c.Bound("history", "four shorter, similar inputs derived from the document are matched before the planted copy")
+	}
 	vCheckOOV(cl, 1000)
 	docs := vCorpusFiles()
 	nctx := c.Pick(1, len(c01Contexts))
@@ -87,6 +95,11 @@ func c01Embedded(c *vrep.Ctx) {
 			r.Note = map[string]interface{}{"skip": "copy does not tokenise to the corpus words in context"}
 			return
 		}
+		if queriesFirst {
+			for _, q := range c01ShortQueries(words) {
+				cl.Match([]byte(q))
+			}
+		}
 		res := cl.Match(in)
 		msg := c01Expect(res, toks, d.Name, d.Category, start, len(words))
 		r.Note = map[string]interface{}{"doc": d.Key, "ctx": ci, "msg": msg, "n": len(words)}
@@ -106,6 +119,47 @@ func c01Embedded(c *vrep.Ctx) {
 			c.Outcome("found")
 		}
 	})
+}
+
+// c01ShortQueries: inputs that are shorter than the document but similar to it.
+func c01ShortQueries(words []string) []string {
+	freq := map[string]int{}
+	for _, w := range words {
+		freq[w]++
+	}
+	type wc struct {
+		w string
+		n int
+	}
+	var byFreq []wc
+	for w, n := range freq {
+		byFreq = append(byFreq, wc{w, n})
+	}
+	sort.Slice(byFreq, func(i, j int) bool {
+		if byFreq[i].n != byFreq[j].n {
+			return byFreq[i].n > byFreq[j].n
+		}
+		return byFreq[i].w < byFreq[j].w
+	})
+	top := map[string]bool{}
+	for i := 0; i < len(byFreq)*15/100+1 && i < len(byFreq); i++ {
+		top[byFreq[i].w] = true
+	}
+	var stripped, second, once []string
+	seen := map[string]bool{}
+	for i, w := range words {
+		if !top[w] {
+			stripped = append(stripped, w)
+		}
+		if i%2 == 0 {
+			second = append(second, w)
+		}
+		if !seen[w] {
+			seen[w] = true
+			once = append(once, w)
+		}
+	}
+	return []string{strings.Join(stripped, " "), strings.Join(words[:len(words)/3+1], " "), strings.Join(second, " "), strings.Join(once, " ")}
 }
 
 // pool of documents for planted sequences: short header, long license, a
